@@ -37,6 +37,8 @@ type c14Case struct {
 	Terms  []c14Term
 	Src    string
 	MaxPts int
+	// Script / ScriptFace: scripted faces instead of enumeration: the first Script draws show ScriptFace, all later ones 1
+	Script, ScriptFace int `json:",omitempty"`
 }
 
 var c14Terms = []c14Term{
@@ -55,6 +57,7 @@ var c14Terms = []c14Term{
 	{Src: "2d3dl3", Kind: "common", X: 2, Y: 3, Mode: 3, N: 3}, {Src: "1d3dh2", Kind: "common", X: 1, Y: 3, Mode: 4, N: 2}, {Src: "甲", Kind: "computed", X: 2, Y: 2, Mode: 2, N: 1, Body: "d2优势"},
 	// WoD counting dice at most N (q), and chained dice whose first link ends in a parenthesised operand followed by a blank / line break
 	{Src: "2a0m2q1", Kind: "wod", Pool: 2, Add: 0, Sides: 2, Thr: 1, LE: true}, {Src: "1a2m2q1", Kind: "wod", Pool: 1, Add: 2, Sides: 2, Thr: 1, LE: true},
+	{Src: "2d(3)", Kind: "common", X: 2, Y: 3}, {Src: "(2)d(3)k(1)", Kind: "common", X: 2, Y: 3, Mode: 2, N: 1},
 	{Src: "1d(2) d2", Kind: "chain", X: 1, Y: 2, Z: 2}, {Src: "1d(2)\nd2", Kind: "chain", X: 1, Y: 2, Z: 2},
 	{Src: "2ddl1", Label: "2D3dl1", Kind: "common", X: 2, Y: 3, Mode: 3, N: 1}, {Src: "2ddh1", Label: "2D3dh1", Kind: "common", X: 2, Y: 3, Mode: 4, N: 1}, {Src: "2dmin2", Label: "2D3min2", Kind: "common", X: 2, Y: 3, Min: ip(2)}, {Src: "2dmax2", Label: "2D3max2", Kind: "common", X: 2, Y: 3, Max: ip(2)},
 }
@@ -92,6 +95,11 @@ func c14Enumerate(tier string, seed int64, emit func(string, any)) {
 				cur += s
 				src.WriteString(s)
 			}
+		}
+		// blanks / a line break after the last term (they are not part of the expression, nor of its process text)
+		if trail := []string{"", "", " ", " \n", "\t "}[variant%5]; trail != "" {
+			cur += trail
+			src.WriteString(trail)
 		}
 		pieces = append(pieces, cur)
 		emit(stratum, c14Case{Pieces: pieces, Terms: terms, Src: src.String(), MaxPts: maxPts})
@@ -138,6 +146,13 @@ func c14Enumerate(tier string, seed int64, emit func(string, any)) {
 	// repeated identifiers / two-line shapes seen in the crash corpus
 	for _, s := range [][]any{{20, "+", 20}, {21, "*", 21, "+", 21}, {22, "+", 22}, {20, "+", 2, "+", 20}, {18, "+", 18}, {19, "*", 18}} {
 		mk("repeats", s...)
+	}
+	// pools that explode beyond the listing limit (100 dice): scripted faces that reach the add-line but not the success line,
+	// so that the text stays short; beyond the limit no dice are listed at all
+	for _, k := range []int{60, 85, 86, 87, 90, 120} {
+		for _, t := range []c14Term{{Src: "13a2k9", Kind: "wod", Pool: 13, Add: 2, Sides: 10, Thr: 9}, {Src: "14a2k9", Kind: "wod", Pool: 14, Add: 2, Sides: 10, Thr: 9}, {Src: "2a2k9", Kind: "wod", Pool: 2, Add: 2, Sides: 10, Thr: 9}, {Src: "13c2", Kind: "dc", Pool: 13, Add: 2, Sides: 10}} {
+			emit("long explosions", c14Case{Pieces: []string{"", "\x000", " + 1"}, Terms: []c14Term{t}, Src: t.Src + " + 1", Script: k, ScriptFace: 5})
+		}
 	}
 }
 
@@ -336,7 +351,12 @@ func c14Run(raw json.RawMessage) harn.Result {
 	ds.VerifStepHook = nil
 	ds.VerifRollHook = func(src *rand.PCGSource, sides ds.IntType) (ds.IntType, bool) {
 		var f int
-		if sides == 100 {
+		if c.Script > 0 {
+			f = 1
+			if len(faces) < c.Script {
+				f = c.ScriptFace
+			}
+		} else if sides == 100 {
 			// D100: representative faces covering every tens/units/zero case
 			reps := []int{1, 9, 10, 11, 50, 90, 99, 100}
 			f = reps[cur.Choose(len(reps))]
@@ -365,7 +385,7 @@ func c14Run(raw json.RawMessage) harn.Result {
 			viol("C14:run-error", err.Error())
 			return
 		}
-		if vm.RestInput != "" {
+		if strings.TrimSpace(vm.RestInput) != "" {
 			viol("MACHINERY:generator", "rest "+vm.RestInput)
 			return
 		}
@@ -464,11 +484,14 @@ func c14Run(raw json.RawMessage) harn.Result {
 			if t.Label != "" {
 				label = t.Label
 			}
+			if a == "略" {
+				continue // an annotation longer than 400 bytes is replaced by this mark
+			}
 			if !strings.HasPrefix(a, label) {
 				viol("C14:annotation-source", fmt.Sprintf("annotation %q of term %q does not start with %q", a, t.Src, label))
 				return
 			}
-			rest := a[len(label):]
+			rest := strings.TrimLeft(a[len(label):], " \t\r\n") // (a blank between a closing parenthesis and the operator belongs to the term's span)
 			if msg := c14CheckAnnotation(t, rest, used[i], vals[i]); msg != "" {
 				viol("C14:annotation:"+t.Kind, fmt.Sprintf("faces %v term %q annotation %q: %s (full text %q)", faces, t.Src, a, msg, d1))
 				return
@@ -615,6 +638,12 @@ func c14CheckAnnotation(t c14Term, rest string, faces []int, val int) string {
 		}
 		if t.Kind == "wod" && stars != val {
 			return fmt.Sprintf("%d dice carry the success mark, the term's value is %d", stars, val)
+		}
+		if t.Pool >= 15 || len(faces) > 100 {
+			if strings.Contains(text, "{") {
+				return fmt.Sprintf("%d dice from a pool of %d: beyond the listing limits no dice may be listed at all", len(faces), t.Pool)
+			}
+			return ""
 		}
 		if k != len(faces) {
 			return fmt.Sprintf("%d dice listed, %d rolled", k, len(faces))
